@@ -167,6 +167,17 @@ theorem json_roundtrip_multiset (p l : Bool) (e : EDS) (h : e.ids.Nodup) :
     ∧ (fromDict (toDict p l e)).nodes.Pairwise (fun a b => spanLt b a = false) :=
   fromDict_toDict_perm p l e h
 
+/-- JSON re-encoding stability at the dictionary level: the decoded graph is a fixed point of the round trip (a second
+encode/decode changes nothing, in particular not the node order) … -/
+theorem json_reencode_stable (p l : Bool) (e : EDS) (h : e.ids.Nodup) :
+    fromDict (toDict p l (fromDict (toDict p l e))) = fromDict (toDict p l e) :=
+  fromDict_toDict_fixed p l e h
+
+/-- … so re-encoding what was decoded from the re-encoded dictionary reproduces that dictionary. -/
+theorem json_redict_stable (p l : Bool) (e : EDS) (h : e.ids.Nodup) :
+    toDict p l (fromDict (toDict p l (fromDict (toDict p l e)))) = toDict p l (fromDict (toDict p l e)) := by
+  rw [fromDict_toDict_fixed p l e h]
+
 /-! ## "EDS-PENMAN does the same for graphs connected from the top" -/
 
 /-- [core] for a graph whose top is a node from which every node is reachable: the triples read back give the top
